@@ -81,10 +81,14 @@ def run(ctx):
         ctx.evaluations += res["calls"]
         for fl in res["fails"]:
             ctx.violation(fl)
+    run_graph(ctx)
 
 
 def replay(ctx, rec):
     case = rec["case"]
+    if case["kind"] == "graph":
+        res = run_workers(ctx, "c15", "replay_graph", [(case["hashseed"], {"behs": [case["beh"]], "seed": case["seed"]})])[0]
+        return res["fails"][:1] or None
     res = run_workers(ctx, "c15", "replay_gen", [(case["hashseed"], {"inst": case["inst"], "behs": [case["beh"]], "seed": case["seed"]})])[0]
     return res["fails"][:1] or None
 
@@ -264,5 +268,154 @@ def replay_gen(payload):
                     break
             if bad:
                 fail(bad, si, o)
+                break
+    return {"n": len(payload["behs"]), "calls": ncalls, "fails": fails[:60]}
+
+
+# =========================================================================== other model classes (GraphEdit.tla)
+def gcfg(kind, depth, maxobjs, nsim, keephist, bound=None):
+    s = (f'CONSTANT Kind = "{kind}"\nCONSTANT Names = {{"a", "b", "c"}}\nCONSTANT MaxObjs = {maxobjs}\nCONSTANT MaxDepth = {depth}\n'
+         f"CONSTANT NSim = {nsim}\nCONSTANT KeepHist = {'TRUE' if keephist else 'FALSE'}\n"
+         'CONSTANT Cliques = {{"a", "b"}, {"b", "c"}, {"a", "b", "c"}, {"c", "d"}, {"d"}}\nCONSTANT NFactors = 3\n'
+         "INIT Init\nNEXT Next\nINVARIANT DbnAcyclic\nINVARIANT DbnMirrored\nINVARIANT JtForest\nINVARIANT JtSepsets\n"
+         "PROPERTY RejectedUnchanged\nPROPERTY Frame\nPROPERTY CopyEqual\n")
+    if keephist:
+        s += "INVARIANT Emit\n"
+    if bound:
+        s += f"CONSTRAINT {bound}\n"
+    return s
+
+
+def run_graph(ctx):
+    behs = []
+    for kind in ("dbn", "jt", "mn"):
+        # design level: the whole reachable abstract state space of one object + a copy (history-free BFS)
+        ctx.tlc("GraphEdit", gcfg(kind, 0, 2, 0, False, bound="DepthBound7" if ctx.thorough else ("DepthBound4" if kind == "dbn" else "DepthBound5")),
+                tag=f"MC_{kind}", coverage=True, timeout=7200)
+        r = ctx.tlc("GraphEdit", gcfg(kind, 2, 2, 0, True), tag=f"Gen_{kind}_d2")
+        behs += r.prints
+        r = ctx.tlc("GraphEdit", gcfg(kind, 9, 3, 2500 if ctx.thorough else 400, True), tag=f"Gen_{kind}_sampled", seed=ctx.seed + 7)
+        behs += r.prints
+    uniq = {}
+    for b in behs:
+        uniq[json.dumps([b["kind"], [s["o"] for s in b["steps"]]], sort_keys=True)] = b
+    behs = list(uniq.values())
+    for k in uniq:
+        ctx.count(k, n=0)
+    ctx.sample({"kind": "graph-edit", "model": behs[-1]["kind"], "ops": [dict(op=s["o"]["op"], ret=s["ret"]) for s in behs[-1]["steps"]]})
+    hseeds = [0, 1]
+    pl = [(hs, {"behs": ch, "seed": ctx.seed * 100 + hs * 8 + j}) for hs in hseeds for j, ch in enumerate(chunks(behs, 8))]
+    for res in run_workers(ctx, "c15", "replay_graph", pl):
+        ctx.traces += res["n"]
+        ctx.evaluations += res["calls"]
+        for fl in res["fails"]:
+            ctx.violation(fl)
+
+
+def _fset(x):
+    return frozenset(x)
+
+
+def replay_graph(payload):
+    import numpy as np
+    from pgmpy.factors.discrete import DiscreteFactor
+    from pgmpy.models import DynamicBayesianNetwork, JunctionTree, MarkovNetwork
+    rng = random.Random(payload["seed"])
+    hs = int(os.environ.get("PYTHONHASHSEED", "0"))
+    fails, ncalls = [], 0
+    names = ["a", "b", "c"]
+    for beh in payload["behs"]:
+        kind = beh["kind"]
+        pool = rng.choice([["A", "B", "C", "D"], ["x1", "rain", "Zed", "q"], ["n3", "n2", "n1", "n0"]])
+        vn = dict(zip(["a", "b", "c", "d"], pool))
+        inv = {c: t for t, c in vn.items()}
+        objs = [{"dbn": DynamicBayesianNetwork, "jt": JunctionTree, "mn": MarkovNetwork}[kind]()]
+
+        def clique(c):
+            return tuple(sorted(vn[x] for x in c))
+
+        def factor(fid):
+            sc = sorted({names[(fid - 1) % 3], names[fid % 3]})
+            return DiscreteFactor([vn[x] for x in sc], [2, 2], [fid * 10 + 1, fid * 10 + 2, fid * 10 + 3, fid * 10 + 4])
+
+        def proj(m):
+            if kind == "dbn":
+                return {"nodes": {(inv[n[0]], n[1]) for n in (x.to_tuple() for x in m.nodes())},
+                        "edges": {((inv[u[0]], u[1]), (inv[v[0]], v[1])) for u, v in ((a.to_tuple(), b.to_tuple()) for a, b in m.edges())},
+                        "factors": []}
+            if kind == "jt":
+                return {"nodes": {_fset(inv[x] for x in n) for n in m.nodes()},
+                        "edges": {_fset([_fset(inv[x] for x in u), _fset(inv[x] for x in v)]) for u, v in m.edges()}, "factors": []}
+            fl = []
+            for f in m.factors:
+                fid = int(round(float(np.asarray(f.values).reshape(-1)[0]))) // 10
+                ok = sorted(inv[v] for v in f.variables) == sorted({names[(fid - 1) % 3], names[fid % 3]}) and \
+                    [int(round(float(x))) for x in np.asarray(f.values).reshape(-1)] == [fid * 10 + i for i in (1, 2, 3, 4)]
+                fl.append(fid if ok else -1)
+            return {"nodes": {inv[n] for n in m.nodes()}, "edges": {_fset([inv[u], inv[v]]) for u, v in m.edges()}, "factors": fl}
+
+        def expd(e):
+            if kind == "dbn":
+                return {"nodes": {tuple(n) for n in e["nodes"]}, "edges": {(tuple(x[0]), tuple(x[1])) for x in e["edges"]}, "factors": []}
+            if kind == "jt":
+                return {"nodes": {_fset(n) for n in e["nodes"]}, "edges": {_fset(_fset(c) for c in x) for x in e["edges"]}, "factors": []}
+            return {"nodes": set(e["nodes"]), "edges": {_fset(x) for x in e["edges"]}, "factors": list(e["factors"])}
+
+        def fail(clause, si, o, obs=None):
+            fails.append({"api": {"dbn": "DynamicBayesianNetwork.", "jt": "JunctionTree.", "mn": "MarkovNetwork."}[kind] + o["op"],
+                          "clause": clause, "features": {},
+                          "case": {"kind": "graph", "beh": beh, "seed": payload["seed"], "hashseed": hs},
+                          "observed": obs, "step": si + 1})
+        for si, st in enumerate(beh["steps"]):
+            o = st["o"]
+            m = objs[o["k"] - 1]
+            ncalls += 1
+            ret, exc = "ok", None
+            try:
+                if o["op"] == "copy":
+                    objs.append(m.copy())
+                elif kind == "dbn":
+                    if o["op"] == "add_node":
+                        m.add_node(vn[o["v"]])
+                    else:
+                        e = ((vn[o["u"]], o["tu"]), (vn[o["v"]], o["tv"]))
+                        if rng.random() < 0.3:
+                            m.add_edges_from([e])
+                        else:
+                            m.add_edge(*e)
+                elif kind == "jt":
+                    if o["op"] == "add_node":
+                        m.add_node(clique(o["c1"]))
+                    else:
+                        m.add_edge(clique(o["c1"]), clique(o["c2"]))
+                else:
+                    if o["op"] == "add_node":
+                        m.add_node(vn[o["v"]])
+                    elif o["op"] == "add_edge":
+                        m.add_edge(vn[o["u"]], vn[o["v"]])
+                    elif o["op"] == "add_factor":
+                        m.add_factors(factor(o["fid"]))
+                    elif o["op"] == "remove_factor":
+                        m.remove_factors(factor(o["fid"]))
+            except Exception as ex:  # noqa
+                ret, exc = "rejected", repr(ex)[:200]
+            if ret != st["ret"]:
+                fail("returns_%s_expected_%s" % (ret, st["ret"]), si, o, exc)
+                break
+            if len(objs) != len(st["objs"]):
+                fail("object_count", si, o)
+                break
+            bad = None
+            for k, (obj, exp) in enumerate(zip(objs, st["objs"])):
+                g, e = proj(obj), expd(exp)
+                for key in ("nodes", "edges", "factors"):
+                    if g[key] != e[key]:
+                        tgt = k == o["k"] - 1 or (o["op"] == "copy" and k == len(objs) - 1)
+                        bad = ("result." if tgt and st["ret"] == "ok" else "rejected_but_changed." if tgt else "frame.") + key
+                        break
+                if bad:
+                    break
+            if bad:
+                fail(bad, si, o, {"obj": k + 1})
                 break
     return {"n": len(payload["behs"]), "calls": ncalls, "fails": fails[:60]}
